@@ -201,6 +201,7 @@ func c07(args []string) error {
 	}
 	run.Start()
 	all := run.WaitFinished(ids, 180*time.Second, 20*time.Second)
+	all = run.WaitDrained(300*time.Second) && all // the outlinks are queued and crawled as well
 	run.Quiesce(300*time.Millisecond, 5*time.Second)
 	run.tr.Emit(map[string]any{"ev": "quiescent", "all_finished": all, "table": append([]string{}, run.StateTable()...)})
 	run.Stop(60 * time.Second)
